@@ -259,7 +259,7 @@ func c04Run(r *core.Run) {
 		}
 		defer srv.Close()
 		h := srv.Handler()
-		time.Sleep(time.Second) // first health round is over
+		w.Sleep(time.Second) // first health round is over
 
 		recognise := func(identName string) c04Caller {
 			if identName == "" {
@@ -529,7 +529,7 @@ func c04Run(r *core.Run) {
 				}
 			}
 			res = append(res, desc)
-			time.Sleep(time.Duration(t.Choose(200, "gap")) * 10 * time.Millisecond)
+			w.Sleep(time.Duration(t.Choose(200, "gap")) * 10 * time.Millisecond)
 		}
 		// recorded address and identity of every signature
 		recs, _ := auditLines(cfg.AuditFile)
